@@ -1,6 +1,6 @@
 (* Model/Lookup.v — the lookup helpers of the runtime template, loop for loop.
    _vlookup, _match, _xmatch (search modes 1 and -1), _index, _address.get_col. *)
-Require Import X2P.Base.Prelude X2P.Base.F64 X2P.Base.PyCmp X2P.Base.PyType.
+Require Import X2P.Base.Prelude X2P.Base.F64 X2P.Base.PyCmp X2P.Base.PyType X2P.Base.PyNum.
 Open Scope Z_scope.
 
 Definition NA : val := VStr "#N/A".
@@ -151,17 +151,6 @@ Fixpoint get_col_loop (fuel : nat) (c : Z) (acc : string) : option string :=
   end.
 Definition get_col_fuel (c : Z) : nat := S (Z.to_nat (Z.log2 c)).
 Definition get_col (c : Z) : option string := get_col_loop (get_col_fuel c) c "".
-
-Fixpoint digits_loop (fuel : nat) (n : Z) (acc : string) : string :=
-  match fuel with
-  | O => acc
-  | S f => let acc' := String (ascii_of_N (Z.to_N (48 + n mod 10))) acc in
-           if n <? 10 then acc' else digits_loop f (n / 10) acc'
-  end.
-(* str(n) for an int *)
-Definition str_of_Z (n : Z) : string :=
-  if n <? 0 then String "-" (digits_loop (S (Z.to_nat (Z.log2 (- n)))) (- n) "")
-  else digits_loop (S (Z.to_nat (Z.log2 n))) n "".
 
 (* _address(row, col) with no further arguments: '$' + get_col() + '$' + str(row) *)
 Definition address2 (row col : Z) : option string :=
